@@ -142,10 +142,12 @@ func (s *Sched) Current() *Task {
 
 // YieldHere is the seam entry used by wrappers and by simos: it parks the calling goroutine iff it
 // is the goroutine of the currently released task.
-func (s *Sched) YieldHere(label string) {
+func (s *Sched) YieldHere(label string) bool {
 	if t := s.Current(); t != nil {
 		t.park(label)
+		return true
 	}
+	return false
 }
 
 var timeSteps = []time.Duration{time.Millisecond, 20 * time.Millisecond, 150 * time.Millisecond, 2 * time.Second}
